@@ -95,10 +95,13 @@ def content_hash(integ, with_capacity=True):
     n = len(integ.trajectory)
     h = hashlib.sha1()
     h.update(_bytes_df(integ.trajectory))
-    h.update(np.ascontiguousarray(integ.lla[:n]).tobytes())
-    h.update(np.ascontiguousarray(integ.velocity_n[:n]).tobytes())
-    h.update(np.ascontiguousarray(integ.mat_nb[:n]).tobytes())
-    cap = (len(integ.lla), len(integ.velocity_n), len(integ.mat_nb)) if with_capacity else ()
+    # the internal buffers by their present names; an implementation that stores its state differently is still
+    # covered by hidden_hash (every instance attribute) - a renamed buffer must not break the harness
+    bufs = [getattr(integ, nm_, None) for nm_ in ('lla', 'velocity_n', 'mat_nb')]
+    for b_ in bufs:
+        if isinstance(b_, np.ndarray) and len(b_) >= n:
+            h.update(np.ascontiguousarray(b_[:n]).tobytes())
+    cap = tuple(len(b_) for b_ in bufs if isinstance(b_, np.ndarray)) if with_capacity else ()
     h.update(repr((cap, bool(integ.with_altitude), list(integ.trajectory.columns))).encode())
     return h.hexdigest()
 
@@ -128,8 +131,8 @@ def hidden_hash(integ):
     """Hash of EVERY instance attribute (whatever their names), so that two objects whose public content agrees
     but whose private state differs (a pending lazy merge, a remembered previous step) are different states."""
     d = vars(integ)
-    cap = len(integ.lla)
     n = len(integ.trajectory)
+    cap = len(integ.lla) if isinstance(getattr(integ, 'lla', None), np.ndarray) else -1
     h = hashlib.sha1()
     for k in sorted(d):
         h.update(k.encode())
@@ -228,7 +231,7 @@ class Explorer:
         integ2 = copy.deepcopy(integ)
         hist2 = hist + [op]
         self.ops_count[op] = self.ops_count.get(op, 0) + 1
-        cap_before = len(integ2.lla)
+        cap_before = len(getattr(integ2, 'lla', ()))
         try:
             if op in ('I0', 'I1', 'I2', 'I3', 'Irest', 'Iall'):
                 k = {'I0': 0, 'I1': 1, 'I2': 2, 'I3': 3, 'Irest': N_ROWS - c, 'Iall': N_ROWS - c}[op]
@@ -283,7 +286,7 @@ class Explorer:
             self.v('c02-exception:%s' % type(e).__name__, '%s raised %s: %s'
                    % (op, type(e).__name__, str(e)[:160]), hist2)
             return None
-        if len(integ2.lla) != cap_before:
+        if len(getattr(integ2, 'lla', ())) != cap_before:
             self.growths += 1
         if _bytes_df(self.inc) != self.inc_bytes:
             self.v('c02-arg-mutated', 'the increments table was modified', hist2)
